@@ -3,7 +3,7 @@ Independent generator and verifier of v1 (JAR) signed APKs for C32.  Shares no c
 
   make_keys()                       RSA-2048 / EC P-256 / DSA-2048 / Ed25519 key material (once per run: slow, NOT seeded)
   make_cert(...)                    X.509 certificate (cryptography's builder)
-  build_p7(spec, keys)              PKCS#7 SignedData (asn1crypto as a DER *writer* only)
+  p7_der / signer_der               PKCS#7 SignedData written with an own DER writer (asn1crypto only dumps INTEGER/OCTET STRING/OID values)
   build_apk(...)                    AndroidManifest.xml (harness/axmlwriter) + META-INF/* -> zip (harness/zipwriter)
   locate(p7)                        offsets of sid / signed attrs / signature inside the DER (own TLV walker)
   oracle_verify(apk, name)          independent v1 verification of one signature block straight from the archive bytes:
@@ -19,9 +19,8 @@ import io
 import unicodedata
 import zipfile
 
-from asn1crypto import algos, cms, core, x509 as ax509
+from asn1crypto import core
 from cryptography import x509 as cx509
-from cryptography.exceptions import InvalidSignature
 from cryptography.hazmat.primitives import hashes, serialization
 from cryptography.hazmat.primitives.asymmetric import dsa, ec, ed25519, padding, rsa
 from cryptography.x509.oid import NameOID
@@ -296,7 +295,9 @@ def parse_name(b: bytes, start: int, end: int):
             out.append((oid.hex(), "#" + b[f[1][1]:f[1][2] + f[1][3]].hex()))
         else:
             raw = b[f[1][2]:f[1][2] + f[1][3]]
-            out.append((attr[0], canon_value(raw.decode("utf-8" if f[1][0] == 0x0C else "ascii"))))
+            # UTF8String: strict UTF-8; PrintableString: one byte per character (NFKD in canon_value then folds e.g. U+00A0 to a blank,
+            # as X500Principal.CANONICAL does)
+            out.append((attr[0], canon_value(raw.decode("utf-8" if f[1][0] == 0x0C else "latin-1"))))
     return tuple(out)
 
 
